@@ -41,6 +41,9 @@ type Goal struct {
 	Trace  []string
 	Fn     string
 	Run    *FnRun
+	Raw    string                                                           // complete SMT-LIB query (used by checks that build their own VCs)
+	Retry  func() string                                                    // on a `sat` answer: a second, more concrete query whose answer decides
+	Replay func(model string, opts *Options) (map[string]interface{}, bool) // run the counterexample on the real code
 }
 
 type Outcome struct {
